@@ -193,7 +193,8 @@ Step(o) ==
      /\ viol' = viol \cup {<<m, Key(m, g, ev)>> : m \in Failing(g, ev)}
      /\ hist' = Append(hist, o @@ [exp |-> ev.res])
 
-Next == \E o \in Ops(now) : Step(o)
+\* (the bound is an enabling condition: TLC does not generate a level it would only discard)
+Next == Len(hist) < Depth /\ \E o \in Ops(now) : Step(o)
 
 Bound == Len(hist) <= Depth
 
